@@ -1,6 +1,6 @@
 (* C16 — UpdateStakingParams applies exactly the given, valid parameters. *)
 From stdpp Require Import gmap.
-Require Import Model.Base Model.Validate Model.State Model.Staking Model.Slashing Model.Poa Model.App proofs.L1Basic proofs.InvElig proofs.InvMsgs proofs.InvTop.
+Require Import Model.Base Model.Validate Model.State Model.Staking Model.Slashing Model.Poa Model.App proofs.L1Basic proofs.InvElig proofs.InvMsgs proofs.InvTop proofs.InvAccept.
 
 Theorem C16_applies_exactly : forall c p c',
   msg_update_params c admin_id p = MOk c' ->
@@ -35,3 +35,9 @@ Proof.
   intros c c' upd HCI H. split; [exact (staking_end_block_top c c' upd HCI H)|]. split; [exact (proj2 (selected_spec c HCI))|].
   intros p id q j. apply selection_takes_the_strongest.
 Qed.
+
+(* exactly when the update is accepted: the admin, a tuple x/staking's Validate accepts, the same bond denom *)
+Theorem C16_accepts_exactly_when : forall c s p,
+  (exists c', msg_update_params c s p = MOk c') <->
+  is_admin s = true /\ params_validate p = true /\ sp_bond_denom p = sp_bond_denom (params (stk c)).
+Proof. exact update_params_accept_iff. Qed.
